@@ -385,7 +385,11 @@ pub fn check_float_follows(rep: &mut Report, sc: &Scen1, rx: &(BuildOut, Vec<Out
                 (Out::Ok(v), Out::Ok(w)) => {
                     // extrapolated values grow like distance^3
                     let q = sc.queries[qi];
-                    let dist = if q < ax[0] { (ax[0] - q) / span } else if q > ax[ax.len() - 1] { (q - ax[ax.len() - 1]) / span } else { 0.0 };
+                    // ... measured in widths of the END interval: the end cubic is a polynomial in (q - x_i) / h_i, so
+                    // rounding errors of its coefficients are magnified by (distance / h_end)^3, not (distance / span)^3
+                    let (h0, hn) = (ax[1] - ax[0], ax[ax.len() - 1] - ax[ax.len() - 2]);
+                    let _ = span;
+                    let dist = if q < ax[0] { (ax[0] - q) / h0 } else if q > ax[ax.len() - 1] { (q - ax[ax.len() - 1]) / hn } else { 0.0 };
                     let grow = Val::from_f64((1.0 + dist).powi(3).ceil());
                     for l in 0..w.len() {
                         let b = tol.mul(&scale).mul(&grow).add(&tol.mul(&w[l].abs()));
